@@ -919,6 +919,25 @@ package gorm
 //@   min-sites 2
 //@   assert one-unit: is(arg1, clause.Where) && len(arg1.(clause.Where).Exprs) == 1 [C02]
 
+//@ # ---------- C03: after ON CONFLICT DO NOTHING the returned rows go to the records that were inserted ----------
+//@ # Scan back-fills the rows RETURNING gave into the created slice. A record that already carries one of the
+//@ # returning values (its key) was not inserted: it is skipped, so the next returned row goes to the next record
+//@ # whose returning values are all unset.
+//@ ghost allUnset checkedUnset
+//@ event calldyn Field.ValueOf
+//@   in gorm.Scan
+//@   do allUnset = ite(result1, allUnset, 0)
+//@ func Scan
+//@   tags C03
+//@   loop "range fields" entry-do allUnset = 1
+//@   loop "range fields" invariant every-returning-value-so-far-is-unset: allUnset == 1
+//@   loop "range fields" exit-do checkedUnset = allUnset
+//@ site returned-row-goes-to-an-unset-record
+//@   match call gorm.(*DB).scanIntoStruct
+//@   in gorm.Scan
+//@   min-sites 2
+//@   assert record-had-no-returning-value: defined(isArrayKind) && update && onConflictDonothing ==> checkedUnset == 1 [C03]
+
 //@ # ---------- C18/C04: a nested block is set up and undone on the caller's handle ----------
 //@ # SAVEPOINT and ROLLBACK TO SAVEPOINT of a nested Transaction carry the same context (and run on the same
 //@ # connection) as the statements of the block: they are issued through the receiver itself.
